@@ -211,6 +211,16 @@ where
     }
 }
 
+#[cfg(foca_verif)]
+impl<T> Broadcasts<T> {
+    pub(crate) fn verif_entries(&self) -> Vec<(Vec<u8>, usize)> {
+        self.flip
+            .iter()
+            .map(|entry| (entry.data.clone(), entry.remaining_tx))
+            .collect()
+    }
+}
+
 #[derive(Debug, Clone)]
 struct Entry<T> {
     remaining_tx: usize,
